@@ -49,7 +49,7 @@ def main(argv):
                 fn, fixed=ob.get('fixed'), timeout=budget,
                 per_path_timeout=ob.get('per_path_timeout', 20),
                 validate_every=ob.get('validate_every', 1),
-                max_failures=ob.get('max_failures', 1))
+                max_failures=ob.get('max_failures', 4))
             # fixed args are part of the replay input
             for key in ('failures', 'errors'):
                 for rec in res.get(key, []):
